@@ -47,6 +47,8 @@ pub enum SStep {
     /// the next epoll_wait reports this client's connection readable although nothing is (a spurious
     /// readiness notification: the receive then fails with EAGAIN)
     SpuriousIn(usize),
+    /// simulated time passes (seconds): every clock the server could read jumps ahead
+    Sleep(u64),
 }
 
 #[derive(Clone, Debug)]
@@ -107,6 +109,7 @@ impl SStep {
             SStep::Drain => a(vec![json::s("drain")]),
             SStep::Fork => a(vec![json::s("fork")]),
             SStep::SpuriousIn(c) => a(vec![json::s("spurious_in"), json::u(*c)]),
+            SStep::Sleep(secs) => a(vec![json::s("sleep"), json::u(*secs as usize)]),
         }
     }
     pub fn from_json(j: &J) -> Result<SStep, String> {
@@ -134,6 +137,7 @@ impl SStep {
             "drain" => SStep::Drain,
             "fork" => SStep::Fork,
             "spurious_in" => SStep::SpuriousIn(n(1)?),
+            "sleep" => SStep::Sleep(n(1)? as u64),
             _ => return Err(format!("unknown step {}", k)),
         })
     }
@@ -871,6 +875,12 @@ impl ServerSim {
                 }
                 _ => false,
             },
+            SStep::Sleep(secs) => {
+                simkernel::rawsys::clock::advance(secs.saturating_mul(1_000_000_000));
+                st.fault("F-time-passes");
+                self.sig.u(17);
+                true
+            }
             SStep::Fork => {
                 let open = self.stream_fds();
                 world::with(|w| w.fork_inherit());
